@@ -541,6 +541,9 @@ class C11(System):
         acts.append(('reset_thermo',))
         acts.append(('empty',))
         acts += [('oT', 360.0), ('ow', 2.5)]
+        if not multi and not isinstance(o, tmo.MultiStream) and s.chemicals is o.chemicals and s.phase != o.phase:
+            # documented constructor that re-points every non-first member to the first member's thermal condition
+            acts += [('from_streams', 'so'), ('from_streams', 'os')]
         if self.mode == 'lazy':
             for who in ('s', 'o'):
                 for v in ('mass', 'vol', 'tot', 'units', 'keyed'):
@@ -891,6 +894,18 @@ class C11(System):
             A, A2 = st.thermos
             s._reset_thermo(A2 if s._thermo is A else A); return 'ok'
         if op == 'empty': s.empty(); return 'ok'
+        if op == 'from_streams':
+            members = [s, o] if a[1] == 'so' else [o, s]
+            ms = tmo.MultiStream.from_streams(members)
+            # the multi-phase stream itself (rows shared with the members) is judged once, here; the members, whose thermal condition
+            # may have been replaced, are judged like after every other action
+            keep = st.s
+            try:
+                st.s = ms
+                self._check_stream(st, 's', 'from_streams')
+            finally:
+                st.s = keep
+            return 'ok'
         if op == 'oT': o.T = a[1]; return 'ok'
         if op == 'ow':
             tro = Truth(o)
@@ -915,12 +930,12 @@ class C11(System):
 
 
 _PAIRS_EAGER = (('l', 'l'), ('l', 'g'), ('g', 'l'), ('m', 'm'), ('m', 'm3'), ('l', 'm3'), ('m', 'l'), ('ls', 'm3'))
-_PAIRS_LAZY = (('l', 'l'), ('l', 'm'), ('l', 'm3'), ('m', 'l'), ('m', 'm'), ('m', 'm3'), ('ls', 'm3'))
+_PAIRS_LAZY = (('l', 'l'), ('l', 'g'), ('l', 'm'), ('l', 'm3'), ('m', 'l'), ('m', 'm'), ('m', 'm3'), ('ls', 'm3'))
 SYSTEMS = [
     # every unit / every write door, applied to every stream kind at depth 1 and after one structural step at depth 2
     C11('c11.units', 'eager', 2, 2, ('l', 'g', 'm'), ('l',), alphabet='units'),
     # histories with all views (whole arrays AND keyed items) re-read, and thereby cached, after every action
     C11('c11.eager', 'eager', 3, 4, ('l', 'g', 'm', 'ls'), ('l', 'g', 'm', 'm3', 's'), quick_pairs=_PAIRS_EAGER, tcap_q=120, tcap_t=900),
     # histories in which views / key memos are only created by explicit read actions (cache-creation order is explored)
-    C11('c11.lazy', 'lazy', 3, 4, ('l', 'm', 'ls'), ('l', 'm', 'm3'), quick_pairs=_PAIRS_LAZY, tcap_q=120, tcap_t=900),
+    C11('c11.lazy', 'lazy', 3, 4, ('l', 'm', 'ls'), ('l', 'g', 'm', 'm3'), quick_pairs=_PAIRS_LAZY, tcap_q=120, tcap_t=900),
 ]
